@@ -368,10 +368,16 @@ def _grid_data(ctx, R, nmax, sfx):
     # Grid::operator== on two vectors
     W = World(ctx['mod'], nmax, max_visits=nmax + 6); g = W.mk_grid('g', n=(nmax if sfx else None)); h = W.mk_grid('h', n=(nmax if sfx else None)); go = W.mk_grid_obj('gobj', g); ho = W.mk_grid_obj('hobj', h)
     if sfx: W.vars['g_n'] = bv(nmax); W.vars['h_n'] = bv(nmax)
-    for o in run_paths(ctx, R, W, '@w_geq', [bv(go.base), bv(ho.base)], 'grid-equality' + sfx):
-        if o.kind != 'ret': prove(R, W, o.st, z3.BoolVal(False), 'grid-equality' + sfx + '/never-throws'); continue
+    def native_geq(m):
+        G = nat.grid(m['g_n'], [d(m['g_p%d' % k]) for k in range(m['g_n'])]); H = nat.grid(m['h_n'], [d(m['h_p%d' % k]) for k in range(m['h_n'])]); o = ctypes.c_size_t(7)
+        nat.lib.n_geq.argtypes = [ctypes.c_void_p, ctypes.c_void_p, ctypes.POINTER(ctypes.c_size_t)]
+        rc = nat.lib.n_geq(G, H, ctypes.byref(o))
+        exp = m['g_n'] == m['h_n'] and all(d(m['g_p%d' % k]) == d(m['h_p%d' % k]) for k in range(m['g_n']))
+        return rc != 0 or bool(o.value) != exp, 'native Grid== on sizes %d,%d (equal=%s) -> rc=%d value=%d' % (m['g_n'], m['h_n'], exp, rc, o.value)
+    for o in run_paths(ctx, R, W, '@w_geq', [bv(go.base), bv(ho.base)], 'grid-equality' + sfx, native_geq):
+        if o.kind != 'ret': prove(R, W, o.st, z3.BoolVal(False), 'grid-equality' + sfx + '/never-throws', native_geq); continue
         sg = z3.And(g['n'] == h['n'], *[z3.Implies(z3.UGT(g['n'], k), z3.fpEQ(F(g['pts'][k]), F(h['pts'][k]))) for k in range(nmax)])
-        prove(R, W, o.st, (o.val == 1) == sg, 'grid-equality' + sfx + '/iff-same-points')
+        prove(R, W, o.st, (o.val == 1) == sg, 'grid-equality' + sfx + '/iff-same-points', native_geq)
         no_input_writes(R, o, 'grid-equality' + sfx)
 
 
